@@ -120,6 +120,21 @@ theorem doif_independent_of_value_order (o : Oracle) (now : Int) (ev : JTree) (f
 example : [some [98], none, some [97]].Perm (fld .equal false [some [97], some [98], none]).values := by
   decide
 
+/-- **check_type is a set of types**: the answer is "the field's type is one of the listed
+    names", whatever the order, the repetitions and the aliases of the list — the constructor's
+    `usedTypesMap` de-duplication (modelled in `buildFns`) never drops a listed type; in
+    particular any permutation of the list gives the same answer. -/
+theorem doif_check_type_is_set_membership (o : Oracle) (now : Int) (ev : JTree) (c : TypeCheck)
+    (vs : List Bytes) (tch : List Pos) (hp : vs.Perm c.values) :
+    (checkSt o now ev (.checkType c) tch).1 = c.values.any (fun v => typeFn v (dig ev c.path)) ∧
+    (checkSt o now ev (.checkType { c with values := vs }) tch).1 = (checkSt o now ev (.checkType c) tch).1 := by
+  simp only [checkSt, typeCheck_eq_specType, specType]
+  exact ⟨trivial, hp.any_eq⟩
+
+-- `[nil, null]` and `[null, nil, null]` on a null field
+example : (checkSt oAscii 0 (evF .null) (.checkType ⟨[[102]], [tn_nil, tn_null]⟩) []).1 = true ∧
+    (checkSt oAscii 0 (evF .null) (.checkType ⟨[[102]], [tn_null, tn_nil, tn_null]⟩) []).1 = true := by decide
+
 /-- **and / or / not, as run**: one step of the short-circuit loops is `&&` / `||` / `!` of the
     first operand's answer and the rest evaluated in the state the first operand left; skipping
     the rest after a deciding operand does not change the answer. -/
